@@ -363,3 +363,56 @@ def replay_interrupted(chk, case):
     for p in case["probes"]:
         out += [(k + "/after-interrupted-call", d) for k, d in apply(chk, *p)]
     return out
+
+
+# ---------------------------------------------------------------------------------------------------------------------
+# E7 - history-positioned concurrency.  A periodic maintenance step (a cache trimmed every N calls, a table re-drawn, a
+# counter wrapped) is executed by ONE call out of many; a race between that step and an ordinary call exists only at
+# that history length.  rare_points() runs a long homogeneous history sequentially under a line tracer and returns the
+# positions whose call executed a library line that no earlier call of the history had executed: those are the
+# non-initial states from which the concurrent explorer is then started (vf/runner.run_histconcur_job).
+def rare_points(ops, chk, files, min_pos=8):
+    import pickle
+    import sys
+    rd, wr = os.pipe()
+    pid = os.fork()
+    if pid == 0:
+        os.close(rd)
+        marks, err = [], None
+        try:
+            seen = set()
+            cur = set()
+
+            def local(frame, event, arg):
+                if event == "line":
+                    cur.add((frame.f_code, frame.f_lineno))
+                return local
+
+            def glob(frame, event, arg):
+                code = frame.f_code
+                if event == "call" and code.co_name != "<module>" and code.co_filename.endswith(files):
+                    return local
+                return None
+            for pos, (kind, case) in enumerate(ops):
+                cur.clear()
+                sys.settrace(glob)
+                try:
+                    apply(chk, kind, case)
+                finally:
+                    sys.settrace(None)
+                new = cur - seen
+                if new and pos >= min_pos:
+                    marks.append((pos, sorted({f"{c.co_filename.rsplit('/', 1)[-1]}:{ln}" for c, ln in new})[:6]))
+                seen |= cur
+        except BaseException:
+            err = traceback.format_exc()[-1500:]
+        with os.fdopen(wr, "wb") as f:
+            pickle.dump({"marks": marks, "error": err}, f)
+        os._exit(0)
+    os.close(wr)
+    with os.fdopen(rd, "rb") as f:
+        data = pickle.loads(f.read())
+    os.waitpid(pid, 0)
+    if data["error"]:
+        raise RuntimeError("rare-point scan: " + data["error"])
+    return data["marks"]
